@@ -52,6 +52,29 @@ CHECKS.update({
             "TLC exhaustive check of WalKey + spec->impl replay on the unmodified types.rs/internal.rs", "7 C25"),
 })
 
+CHECKS.update({
+    "C07": ("fault_enumeration", "Every durable mutation of the caller thread is a numbered hook event; each generated workload is crashed (process _exit) before every event k in 1..N+1, "
+            "with all completion subsets of io_uring batches up to 4 entries; a fresh process reopens and drains; TLC validates (acknowledged events, Crash(inflight), post-recovery reads) "
+            "against WalrusAPI.Crash: recovery succeeds, every acknowledged entry is there in order, followed by at most entries of the operation in flight.",
+            "crash-point enumeration through I/O hooks + TLC trace validation against WalrusAPI.Crash", "7 C07"),
+    "C08": ("fault_enumeration", "Same crash runs, validated a second time with the contract's all-or-nothing reading of an in-flight batch; a crash point counts against C08 iff its trace is accepted "
+            "with 'any selection of the batch may survive' and rejected with 'all or nothing'.",
+            "crash-point + io_uring completion-subset enumeration, TLC validation with BatchAtomic=TRUE vs FALSE", "7 C08"),
+    "C09": ("fault_enumeration", "Same crash runs; the contract's Crash action leaves the consumer position open in [cur - slack, cur + in-flight] (StrictlyAtOnce) or [lb, cur] (AtLeastOnce, lb advanced by read_next every "
+            "persist_every reads) and the first post-recovery consuming read must resolve it inside that range: nothing consumed is redelivered (strict), nothing unconsumed is skipped.",
+            "crash-point enumeration + TLC trace validation of the post-recovery read position", "7 C09"),
+    "C14": ("model_checking", "TLC enumerates every key of length <=4 over 8 character classes and checks StrictlyInside on the transcription of sanitize_namespace + path push (spec Namespace; the pre-fix variant is kept as a "
+            "vacuity guard and must be violated); every enumerated key (quick: all of length <=3 + a seeded sample of length 4) is instantiated and passed to the real constructors; the instance root and listings of the data dir "
+            "and its parent are checked.",
+            "TLC exhaustive check of Namespace + spec->impl replay on the real constructors", "7 C14"),
+    "C22": ("model_checking", "TLC checks the DataPlane design (2-3 nodes, <=3 PUT + <=4 GET, threshold 1-2, one pc per .await) against the contract with each code deviation as a switch (as-code configs yield the counterexamples, "
+            "deviation-free configs hold); every execution of the real NodeController/bucket/Metadata/monitor/engine code on the deterministic cluster simulation (TLC counterexamples, TLC-generated behaviours, seeded random/PCT "
+            "schedules, avoidance-guarded corpora) is decided by TLC as linearizability of the client call/ret history to a FIFO queue.",
+            "TLA+ design+contract DataPlane (TLC), schedule replay on the shim-world simulation, TLC trace validation (linearizability)", "7 C22"),
+    "C23": ("model_checking", "Same executions as C22; TLC checks every data-plane write event against the writer's applied metadata at that step (no write into a segment whose sealing the node has applied, none into another node's segment).",
+            "TLC trace validation of write/apply events from the shim-world simulation against DataPlane", "7 C23"),
+})
+
 DIST_NOTE = ("Shim world: the distributed-walrus/octopii files are compiled unmodified via #[path] against local shim crates (tokio: deterministic executor, bincode: 1.3 layout, "
              "octopii/openraft: traits and data types only); behaviour that depends on the real crates is outside what is explored.")
 
